@@ -156,7 +156,9 @@ def search(ctx):
                       'separate class sign-residue); all-in-range input with cleared memory is returned bit for bit with '
                       'memory 0; the C-channel call equals C single-channel calls (samples and memory, bit for bit); degenerate '
                       'arguments touch nothing. Gain: factor vs 10^(g/5120) for all 65536 gains within the calibrated '
-                      'tolerance; twin decoders with gain g / 0 on the same packets (incl. lost frames, FEC): equal sample '
+                      'tolerance; twin decoders with gain g / 0 on the same packets (incl. lost frames, FEC, and every third '
+                      'stream alternating between packets of a SILK-only and a CELT-only encoder so that the decoder '
+                      'cross-fades between modes): equal sample '
                       'counts and final ranges, float output == gain-0 output * factor (one binary32 multiplication, bit for '
                       'bit), int16 output == saturate(round(32768 * softclip(float))), never a wrapped value',
             'stats': stats, 'samples': samples, 'witnesses': wit[:10]}
